@@ -107,9 +107,7 @@ def keys_axioms(m, ks=()):
     return ax
 
 
-def truthy(v):
-    """bool(v) for a V term.  Objects are truthy unless they are container objects; the
-    engine resolves container objects through the heap before calling this (see Engine.truth)."""
+def _truthy_body(v):
     return z3.If(V.is_bool(v), V.b(v),
            z3.If(V.is_none(v), False,
            z3.If(V.is_absent(v), False,
@@ -123,6 +121,12 @@ def truthy(v):
 
 
 SET_NONEMPTY = z3.Function('set_nonempty', SetS, Bool)
+# bool(v) for a V term, as a defined function that the solver unfolds on demand (keeps terms small).
+# Objects are truthy unless they are container objects; the engine resolves container objects through
+# the heap before calling this (see Core.truth).
+_tv = z3.Const('truthy!v', V)
+truthy = z3.RecFunction('truthy', V, Bool)
+z3.RecAddDefinition(truthy, [_tv], _truthy_body(_tv))
 
 
 def py_eq(a, b):
@@ -155,3 +159,21 @@ def qforall(vs, body, patterns=None):
         except z3.Z3Exception:
             pass
     return z3.ForAll(vs, body)
+
+
+import threading as _threading
+
+
+def zcheck(solver, timeout_ms):
+    """solver.check() with the z3 timeout AND a watchdog interrupt (z3 does not always honour `timeout`
+    inside string/sequence preprocessing)"""
+    solver.set('timeout', int(timeout_ms))
+    t = _threading.Timer(timeout_ms / 1000.0 * 1.5 + 0.3, solver.ctx.interrupt)
+    t.daemon = True
+    t.start()
+    try:
+        return solver.check()
+    except z3.Z3Exception:
+        return z3.unknown
+    finally:
+        t.cancel()
